@@ -1,0 +1,51 @@
+//go:build verif
+// +build verif
+
+/*
+ * Copyright 2022 The Furiko Authors.
+ *
+ * Licensed under the Apache License, Version 2.0 (the "License");
+ * you may not use this file except in compliance with the License.
+ * You may obtain a copy of the License at
+ *
+ *     http://www.apache.org/licenses/LICENSE-2.0
+ *
+ * Unless required by applicable law or agreed to in writing, software
+ * distributed under the License is distributed on an "AS IS" BASIS,
+ * WITHOUT WARRANTIES OR CONDITIONS OF ANY KIND, either express or implied.
+ * See the License for the specific language governing permissions and
+ * limitations under the License.
+ */
+
+package heap
+
+// VerifItem is a copy of a single heap item.
+type VerifItem struct {
+	Name     string
+	Priority int
+	Index    int
+}
+
+// VerifDump is a read-only copy of the heap's internal state.
+type VerifDump struct {
+	// Queue is the backing array in heap order.
+	Queue []VerifItem
+	// Names is a copy of the name index.
+	Names map[string]int
+}
+
+// VerifDump returns a read-only copy of the heap's internal state. Only compiled
+// with the "verif" build tag, used by the external model-checking harness.
+func (h *Heap) VerifDump() VerifDump {
+	dump := VerifDump{
+		Queue: make([]VerifItem, 0, len(h.pq.queue)),
+		Names: make(map[string]int, len(h.pq.names)),
+	}
+	for _, item := range h.pq.queue {
+		dump.Queue = append(dump.Queue, VerifItem{Name: item.name, Priority: item.priority, Index: item.index})
+	}
+	for name, index := range h.pq.names {
+		dump.Names[name] = index
+	}
+	return dump
+}
